@@ -1,13 +1,187 @@
 /-
-  C10 — a device answers every well-framed request and stays healthy under garbage
-  (work in progress: first obligations; the property theorems follow)
+  C10 — A device answers every well-framed request and stays healthy under garbage.
+
+  Property text.  "Any confirmed request whose fixed header is intact and which
+  is addressed to a device receives exactly one reply carrying its invoke ID -
+  the service's acknowledgement, an error, or a reject/abort when the
+  parameters are malformed, unknown or unsupported - never silence.  After any
+  sequence of arbitrary, truncated or corrupted datagrams at any layer, the
+  device keeps no leftover transaction or timer, other well-formed traffic
+  queued at the same moment is still processed, and a subsequent valid request
+  is answered correctly."
+
+  Model: `BacVerif.Model.Device` — `recv : DevCfg σ → DevState σ → src → octets →
+  DevState σ × List Frame`, a TOTAL function composed of the verified codecs
+  (`Npci.decodeNpci` C08, `decodeApdu` C07, `parseTags` C02, `Codec.decodePdu`
+  over the REGENERATED schema environment C03) and the transaction state
+  machines (`Tsm.step`, C11/C12), with the application abstract: ANY transition
+  system `serve : σ → Peer → Apdu → σ × AppReply` over ANY state type `σ`.
+
+  Formalisation, phrase by phrase:
+
+  * "confirmed request whose fixed header is intact and which is addressed to
+     a device": `wellFramed f = some inv` — a decidable predicate on the OCTETS
+     (version 1; no DNET / SNET / network-message bit; ≥ 4 APDU octets; PDU type
+     0; segmented bit clear).  It is `harness/c10_impl.classify(f) ==
+     ("confirmed", inv)`; the correspondence run compares the two on every frame.
+  * "receives exactly one reply carrying its invoke ID - ack, error, or
+     reject/abort - never silence":
+       reply_exists — for EVERY such octet string (every body, every service
+       choice incl. unknown ones), EVERY application, EVERY state in which the
+       DCC gate lets the request in (`listening`) and no transaction of that
+       (sender, invoke ID) is in progress (`hfree`): the output of `recv` is
+       EXACTLY ONE frame; it goes to the sender; read back independently
+       (`replyHdr`) it is a simple ack / complex ack / error / reject / abort
+       with that invoke ID; if it is not a first segment the server transaction
+       list is what it was, otherwise exactly one transaction in
+       SEGMENTED_RESPONSE was appended.  No invariant is needed for this.
+  * "After any sequence of arbitrary, truncated or corrupted datagrams at any
+     layer, the device keeps no leftover transaction or timer":
+       garbage_leaves_nothing — from any state satisfying the transaction-list
+       invariant without client transactions (`Good`; the initial state is,
+       `good_init`), after ANY list of (source, octets) pairs and `quiesce`
+       (the scheduler fires every armed transaction timer): both transaction
+       lists are empty, hence no timer is armed (`armed = []`), and the
+       invariant still holds.  `quiesce` is a loop bounded by the BUDGET
+       Σ (1 | retries − segRetry + 1); `Lemmas.DeviceQuiesce.fire_spec` shows
+       every expiry lowers it, so the bound never cuts the loop short.
+  * "other well-formed traffic queued at the same moment is still processed":
+       recvAll_append — the queue is a fold;
+       dropped_is_noop — a datagram that does not reach the state machines
+       (`fate f ≠ delivered`: NPCI / message body / APCI decode error, DADR of
+       another network, unknown message type) produces nothing and leaves the
+       transaction state and the application untouched; dropped_leaves_state /
+       dropped_absent — … and, unless it carried an SNET (a route is learned
+       from it before the APCI is looked at — that is what the code does), the
+       WHOLE state: the rest of the queue is processed exactly as if it had
+       not been there;
+       queued_request_answered — a well-framed request behind ANY prefix of
+       arbitrary datagrams is answered (exactly one reply among the outputs
+       of its own processing step), whenever the state reached lets it in.
+  * "a subsequent valid request is answered correctly":
+       answered_after_garbage — `garbage_leaves_nothing` ∘ `reply_exists`.
+
+  Partial (stated honestly).  Exceptions are a Python runtime notion: these are
+  theorems about the total model.  That the code does what the model does — in
+  particular that no decoder raises outside what `rejectOf` predicts — rests on
+  the correspondence run (harness/c10_model.py: every template mutation, random
+  frames, interleavings, constructed histories; frames compared octet for octet)
+  and the implementation-side oracle (harness/c10.py).  The model's application
+  always answers; DCC `disable` legitimately silences a device (hypothesis
+  `listening`).  A duplicate request while a segmented response is in progress
+  raises `invalid APDU (7)` (Tsm.md) — excluded by `hfree`.
 -/
-import BacVerif.Model.Device
+import BacVerif.Lemmas.DeviceQuiesce
 import BacVerif.Gen.DeviceTables
 import BacVerif.Gen.Schemas
 import BacVerif.Gen.TsmDefaults
 namespace BacVerif.C10
 open BacVerif BacVerif.Tsm BacVerif.Device
+set_option linter.unusedSimpArgs false
+
+/-! ## reply_exists -/
+
+/-- the DeviceCommunicationControl gate lets this request in: communication is
+    not disabled, or the request is DeviceCommunicationControl (17) / ReinitializeDevice (20) -/
+def listening (d : Dcc) (f : Bytes) : Prop :=
+  d ≠ .disable ∨ serviceOf f = 17 ∨ serviceOf f = 20
+
+instance (d : Dcc) (f : Bytes) : Decidable (listening d f) := by unfold listening; infer_instance
+
+/-- what `reply_exists` says about the outputs of one `recv` -/
+structure ExactlyOneReply {σ} (s s' : DevState σ) (src : Bytes) (inv : Nat) (outs : List Frame) : Prop where
+  one : ∃ fr hdr, outs = [fr] ∧ fr.dst = some src ∧ replyHdr fr.octets = some hdr ∧ hdr.invoke = inv ∧
+        (hdr.ty = 2 ∨ hdr.ty = 3 ∨ hdr.ty = 5 ∨ hdr.ty = 6 ∨ hdr.ty = 7) ∧
+        (hdr.seg = false → s'.sap.servers = s.sap.servers) ∧
+        (hdr.seg = true → hdr.ty = 3 ∧ ∃ b, b.st = .segResp ∧
+           s'.sap.servers = s.sap.servers ++ [Txn.mk ⟨peerOf (.localStation src), inv⟩ b])
+  clients : s'.sap.clients = s.sap.clients
+
+theorem reply_exists {σ} (cfg : DevCfg σ) (hw : cfg.base.window < 256) (s : DevState σ)
+    (src f : Bytes) (inv : Nat)
+    (hwf : wellFramed f = some inv)
+    (hdcc : listening s.sap.dcc f)
+    (hfree : findTxn ⟨peerOf (.localStation src), inv⟩ s.sap.servers = none) :
+    ExactlyOneReply s (recv cfg s src f).1 src inv (recv cfg s src f).2 := by
+  match f, hwf with
+  | v :: ctl :: a0 :: a1 :: i :: svc :: body, hwf =>
+    simp only [wellFramed] at hwf
+    split at hwf
+    · rename_i hc
+      obtain ⟨hv, h80, h20, h08, ht, hs⟩ := hc
+      simp only [Option.some.injEq] at hwf
+      subst hwf
+      have hnp := decodeNpci_plain v ctl (a0 :: a1 :: i :: svc :: body) hv h80 h20 h08
+      obtain ⟨hd, hap, ha0, haseg, haid, hasvc⟩ : ∃ hd, decodeApdu (a0 :: a1 :: i :: svc :: body) = .ok (hd, body) ∧
+          (ofApci hd body).ty = 0 ∧ (ofApci hd body).seg = false ∧ (ofApci hd body).invokeId = i.toNat ∧
+          (ofApci hd body).service = svc.toNat :=
+        ⟨_, decodeApdu_confirmed a0 a1 i svc body ht hs, rfl, rfl, rfl, rfl⟩
+      unfold recv
+      rw [hnp]
+      simp only [learnSadr, processLocally, Bool.not_true, Bool.false_eq_true, if_false, hap]
+      generalize ofApci hd body = a at *
+      have hs0 : ({ sap := s.sap, routes := s.routes, app := s.app } : DevState σ) = s := by cases s; rfl
+      rw [hs0]
+      have hgate : dccInbound s.sap.dcc a = true := by
+        unfold dccInbound
+        rcases hdcc with h | h | h
+        · cases hd : s.sap.dcc <;> simp_all
+        · simp only [serviceOf] at h
+          cases hd : s.sap.dcc <;> simp [ha0, hasvc, h]
+        · simp only [serviceOf] at h
+          cases hd : s.sap.dcc <;> simp [ha0, hasvc, h]
+      have hdel := deliver_fresh cfg hw s ⟨peerOf (.localStation src), i.toNat⟩ a ha0 haseg haid
+        (UInt8.toNat_lt i) (by rw [hasvc]; exact UInt8.toNat_lt svc) hgate hfree
+      obtain ⟨⟨x, hx, houts, hcase⟩, hroutes, hclients⟩ := hdel
+      dsimp only at houts hroutes hclients hcase
+      rw [houts]
+      obtain ⟨fr, hdr, hemit, hdst, hhdr, hinv, hty, hsegeq⟩ := emit_reply (deliver cfg s (peerOf (.localStation src)) a).1.routes src hx
+      refine ⟨⟨fr, hdr, ?_, hdst, hhdr, hinv, ?_, ?_, ?_⟩, hclients⟩
+      · simp [emitAll, emit, hemit]
+      · rw [hty]; rcases hx.shape with h | h | h | h | h <;> simp [h.1]
+      · intro hsf
+        rcases hcase with ⟨_, hsv⟩ | ⟨hty3, hsg, _⟩
+        · exact hsv
+        · rw [hsegeq, hty3, hsg] at hsf; simp at hsf
+      · intro hst
+        rcases hcase with ⟨hns, _⟩ | ⟨hty3, hsg, b', hb', hsv⟩
+        · rw [hsegeq, hns] at hst; cases hst
+        · exact ⟨by rw [hty, hty3], b', hb', hsv⟩
+    · cases hwf
+
+/-! ## garbage_leaves_nothing -/
+
+/-- deadlines of every scheduled transaction task -/
+def armed (s : Sap) : List Nat := (s.clients ++ s.servers).filterMap (·.body.timer)
+
+theorem tsm_pos {σ} {cfg : DevCfg σ} (h : cfg.base.TimeoutsPos) : cfg.tsm.TimeoutsPos :=
+  ⟨h.apdu, h.seg, h.app⟩
+
+/-- a freshly built device satisfies the invariant -/
+theorem good_init {σ} (app : σ) : Good ({ app := app } : DevState σ) := ⟨Inv.init, rfl⟩
+
+/-- **garbage_leaves_nothing.**  ANY datagrams from ANY stations, then quiescence:
+    no transaction, no timer. -/
+theorem garbage_leaves_nothing {σ} (cfg : DevCfg σ) (hpos : cfg.base.TimeoutsPos)
+    (s0 : DevState σ) (hg : Good s0) (garbage : List (Bytes × Bytes)) :
+    let s := (quiesce cfg (recvAll cfg s0 garbage).1).1
+    s.sap.servers = [] ∧ s.sap.clients = [] ∧ armed s.sap = [] ∧ Good s := by
+  intro s
+  have h1 := recvAll_good (tsm_pos hpos) garbage hg
+  obtain ⟨h2, h3, _, _⟩ := quiesce_done (tsm_pos hpos) h1
+  refine ⟨h3, h2.2, ?_, h2⟩
+  show ((quiesce cfg (recvAll cfg s0 garbage).1).1.sap.clients ++
+        (quiesce cfg (recvAll cfg s0 garbage).1).1.sap.servers).filterMap _ = []
+  rw [h3, h2.2]
+  rfl
+
+/-- the loop bound of `quiesce` is never what stops it: when it returns, no timer is armed -/
+theorem quiesce_complete {σ} (cfg : DevCfg σ) (hpos : cfg.base.TimeoutsPos) (s : DevState σ)
+    (hg : Good s) : nextDue (quiesce cfg s).1.sap.servers = none := by
+  rw [(quiesce_done (tsm_pos hpos) hg).2.1]
+  rfl
+
+/-! ## isolation -/
 
 /-- `recvAll` is a fold: a queue processed in two parts is the queue processed at once -/
 theorem recvAll_append {σ} (cfg : DevCfg σ) : ∀ (xs ys : List (Bytes × Bytes)) (s : DevState σ),
@@ -24,10 +198,193 @@ theorem recvAll_append {σ} (cfg : DevCfg σ) : ∀ (xs ys : List (Bytes × Byte
     rw [ih]
     simp [List.append_assoc]
 
-/-- the reject reason of every decoder error class is the one the live classes carry -/
+/-- the SADR a datagram carries (if its NPCI decodes) -/
+def sadrOf (f : Bytes) : Option Npci.Addr :=
+  match Npci.decodeNpci f with
+  | .ok (h, _) => h.sadr
+  | .error _ => none
+
+theorem dropped_is_noop {σ} (cfg : DevCfg σ) (s : DevState σ) (src f : Bytes)
+    (h : fate f ≠ .delivered) :
+    (recv cfg s src f).2 = [] ∧ (recv cfg s src f).1.sap = s.sap ∧ (recv cfg s src f).1.app = s.app := by
+  unfold fate at h
+  unfold recv
+  cases hn : Npci.decodeNpci f with
+  | error e => exact ⟨rfl, rfl, rfl⟩
+  | ok r =>
+    obtain ⟨hd, rest⟩ := r
+    simp only [hn] at h
+    dsimp only
+    by_cases hp : (!processLocally hd) = true
+    · simp [hp]
+    · simp only [hp, if_false] at h ⊢
+      cases hm : hd.netMessage with
+      | some c =>
+        simp only [hm] at h ⊢
+        cases hk : Npci.kindOfCode c with
+        | none => exact ⟨rfl, rfl, rfl⟩
+        | some kd =>
+          dsimp only
+          cases hb : Npci.decodeBody kd rest with
+          | error e => exact ⟨rfl, rfl, rfl⟩
+          | ok m => exact ⟨rfl, rfl, rfl⟩
+      | none =>
+        simp only [hm] at h ⊢
+        cases ha : decodeApdu rest with
+        | error e => exact ⟨rfl, rfl, rfl⟩
+        | ok r2 =>
+          simp only [ha] at h
+          exact absurd rfl h
+
+theorem dropped_leaves_state {σ} (cfg : DevCfg σ) (s : DevState σ) (src f : Bytes)
+    (h : fate f ≠ .delivered) (h2 : fate f ≠ .netMsg) (hs : sadrOf f = none) :
+    recv cfg s src f = (s, []) := by
+  unfold fate at h h2
+  unfold sadrOf at hs
+  unfold recv
+  cases hn : Npci.decodeNpci f with
+  | error e => rfl
+  | ok r =>
+    obtain ⟨hd, rest⟩ := r
+    simp only [hn] at h h2 hs
+    have hroutes : learnSadr s.routes src hd = s.routes := by simp [learnSadr, hs]
+    have hs0 : ({ s with routes := s.routes } : DevState σ) = s := by cases s; rfl
+    dsimp only
+    rw [hroutes, hs0]
+    by_cases hp : (!processLocally hd) = true
+    · simp [hp]
+    · simp only [hp, if_false] at h h2 ⊢
+      cases hm : hd.netMessage with
+      | some c =>
+        simp only [hm] at h h2 ⊢
+        cases hk : Npci.kindOfCode c with
+        | none => rfl
+        | some kd =>
+          simp only [hk] at h2
+          dsimp only
+          cases hb : Npci.decodeBody kd rest with
+          | error e => rfl
+          | ok m => simp only [hb] at h2; exact absurd rfl h2
+      | none =>
+        simp only [hm] at h ⊢
+        cases ha : decodeApdu rest with
+        | error e => rfl
+        | ok r2 =>
+          simp only [ha] at h
+          exact absurd rfl h
+
+/-- **dropped_absent.**  A dropped datagram without SNET anywhere in the queue:
+    every other datagram is processed exactly as if it were absent. -/
+theorem dropped_absent {σ} (cfg : DevCfg σ) (s : DevState σ) (xs ys : List (Bytes × Bytes))
+    (src f : Bytes) (h : fate f ≠ .delivered) (h2 : fate f ≠ .netMsg) (hs : sadrOf f = none) :
+    recvAll cfg s (xs ++ (src, f) :: ys) = recvAll cfg s (xs ++ ys) := by
+  rw [recvAll_append, recvAll_append]
+  simp only [recvAll]
+  rw [dropped_leaves_state cfg _ src f h h2 hs]
+  simp
+
+/-- **queued_request_answered.**  A well-framed request queued behind ANY
+    datagrams: its own processing step yields exactly one reply (the outputs of
+    the whole queue are those of the prefix, then that reply, then those of the rest). -/
+theorem queued_request_answered {σ} (cfg : DevCfg σ) (hw : cfg.base.window < 256)
+    (s : DevState σ) (xs ys : List (Bytes × Bytes)) (src f : Bytes) (inv : Nat)
+    (hwf : wellFramed f = some inv)
+    (hdcc : listening (recvAll cfg s xs).1.sap.dcc f)
+    (hfree : findTxn ⟨peerOf (.localStation src), inv⟩ (recvAll cfg s xs).1.sap.servers = none) :
+    ∃ s1 reply, ExactlyOneReply (recvAll cfg s xs).1 s1 src inv reply ∧
+      (recvAll cfg s (xs ++ (src, f) :: ys)).2 =
+        (recvAll cfg s xs).2 ++ reply ++ (recvAll cfg s1 ys).2 := by
+  refine ⟨(recv cfg (recvAll cfg s xs).1 src f).1, (recv cfg (recvAll cfg s xs).1 src f).2,
+    reply_exists cfg hw _ src f inv hwf hdcc hfree, ?_⟩
+  rw [recvAll_append]
+  simp [recvAll, List.append_assoc]
+
+/-- **answered_after_garbage.**  After ANY datagrams and quiescence, every
+    well-framed request the DCC gate lets in gets exactly one reply. -/
+theorem answered_after_garbage {σ} (cfg : DevCfg σ) (hpos : cfg.base.TimeoutsPos)
+    (hw : cfg.base.window < 256) (s0 : DevState σ) (hg : Good s0) (garbage : List (Bytes × Bytes))
+    (src f : Bytes) (inv : Nat) (hwf : wellFramed f = some inv)
+    (hdcc : listening (quiesce cfg (recvAll cfg s0 garbage).1).1.sap.dcc f) :
+    ExactlyOneReply (quiesce cfg (recvAll cfg s0 garbage).1).1
+      (recv cfg (quiesce cfg (recvAll cfg s0 garbage).1).1 src f).1 src inv
+      (recv cfg (quiesce cfg (recvAll cfg s0 garbage).1).1 src f).2 := by
+  have h := (garbage_leaves_nothing cfg hpos s0 hg garbage).1
+  exact reply_exists cfg hw _ src f inv hwf hdcc (by rw [h]; rfl)
+
+/-! ## obligations against the regenerated tables -/
+
+/-- the reject reason of every decoder error class is the one the live classes carry;
+    `DecodingError` is outside the reject family and takes the ASAP's catch-all -/
 theorem reject_table_agrees :
     Gen.DeviceTables.rejectTable.all (fun (e, _, r) => rejectOf e == r) = true ∧
+    Gen.DeviceTables.rejectTable.all (fun (e, inFamily, _) => inFamily == (e != .decoding)) = true ∧
     rejectOther = Gen.DeviceTables.rejectOther ∧
-    rejectUnrecognizedService = Gen.DeviceTables.rejectUnrecognizedService := by decide
+    rejectUnrecognizedService = Gen.DeviceTables.rejectUnrecognizedService ∧
+    Gen.DeviceTables.replyTypes = [2, 3, 5, 6, 7] ∧
+    Gen.DeviceTables.apduTypes = [0, 1, 2, 3, 4, 5, 6, 7] := by decide
+
+/-- the defaults of a live `StateMachineAccessPoint` meet the hypotheses of the theorems -/
+theorem defaults_meet_hypotheses :
+    Gen.TsmDefaults.cfg.TimeoutsPos ∧ Gen.TsmDefaults.cfg.window < 256 :=
+  ⟨⟨by decide, by decide, by decide⟩, by decide⟩
+
+/-! ## non-vacuity: concrete instances (TESTS by kernel evaluation, not the theorems) -/
+
+/-- the device of the harness: live defaults, segmentation both ways, an
+    application that answers every request with the same complex ack -/
+def exCfg : DevCfg Unit :=
+  { base := { Gen.TsmDefaults.cfg with seg := .both, maxSegs := some 16, segTimeout := 5000 },
+    env := Gen.Schemas.env, confirmed := Gen.Schemas.confirmed, unconfirmed := Gen.Schemas.unconfirmed,
+    serve := fun _ _ _ => ((), { answer := .complexAck [0x0c, 0x00, 0x80, 0x00, 0x01, 0x19, 0x55, 0x3e, 0x44, 0x41, 0x48, 0x00, 0x00, 0x3f] }),
+    unconf := fun _ _ _ => ((), []) }
+
+def ex0 : DevState Unit := { app := () }
+
+/-- ReadProperty(analogValue 1, presentValue), invoke ID 1, from station 0x0a
+    (`harness/c10_impl.templates()["rp"]`) -/
+def rp : Bytes := [0x01, 0x04, 0x02, 0x05, 0x01, 0x0c, 0x0c, 0x00, 0x80, 0x00, 0x01, 0x19, 0x55]
+
+example : wellFramed rp = some 1 := by decide
+example : listening ex0.sap.dcc rp := by decide
+example : findTxn ⟨peerOf (.localStation [0x0a]), 1⟩ ex0.sap.servers = none := rfl
+example : exCfg.base.TimeoutsPos ∧ exCfg.base.window < 256 := ⟨⟨by decide, by decide, by decide⟩, by decide⟩
+example : Good ex0 := good_init ()
+
+/-- the valid request: complex ack with invoke ID 1 -/
+example : (recv exCfg ex0 [0x0a] rp).2 =
+    [⟨some [0x0a], [0x01, 0x00, 0x30, 0x01, 0x0c, 0x0c, 0x00, 0x80, 0x00, 0x01, 0x19, 0x55, 0x3e, 0x44, 0x41, 0x48, 0x00, 0x00, 0x3f]⟩] := by
+  decide +kernel
+
+/-- its last octet cut off: the ASAP rejects with invalidTag (4), same invoke ID -/
+example : (recv exCfg ex0 [0x0a] rp.dropLast).2 = [⟨some [0x0a], [0x01, 0x00, 0x60, 0x01, 0x04]⟩] := by
+  decide +kernel
+
+/-- service choice 99 (no such service): reject unrecognizedService (9) -/
+example : (recv exCfg ex0 [0x0a] [0x01, 0x04, 0x02, 0x05, 0x07, 0x63, 0xff, 0xff]).2 =
+    [⟨some [0x0a], [0x01, 0x00, 0x60, 0x07, 0x09]⟩] := by decide +kernel
+
+/-- reserved max-APDU code 15: abort (other) from the server, nothing left behind -/
+example : (recv exCfg ex0 [0x0a] [0x01, 0x04, 0x02, 0x0f, 0x09, 0x0c]).2 =
+      [⟨some [0x0a], [0x01, 0x00, 0x71, 0x09, 0x00]⟩] ∧
+    (recv exCfg ex0 [0x0a] [0x01, 0x04, 0x02, 0x0f, 0x09, 0x0c]).1.sap.servers = [] := by decide +kernel
+
+/-- 50-octet limit with segmented-response-accepted clear and a 14-octet answer: fits;
+    with the answer too long for the client the reply is an abort (tested in the harness) -/
+example : (replyHdr [0x01, 0x00, 0x3c, 0x09, 0x00, 0x02, 0x0e, 0x0c]) = some ⟨3, 9, true, 14⟩ := by decide
+
+/-- garbage that DOES leave something until the timers run: the first segment of a
+    segmented request opens a transaction (and is acknowledged) … -/
+def seg0 : Bytes := [0x01, 0x04, 0x0e, 0x05, 0x2b, 0x00, 0x02, 0x0f, 0x0c, 0x00, 0x80, 0x00, 0x01]
+
+example : (recvAll exCfg ex0 [([0x0a], seg0), ([0x0a], [0xff]), ([0x0b], [0x01, 0x80])]).1.sap.servers.length = 1 := by
+  decide +kernel
+/-- … and quiescence removes it -/
+example : (quiesce exCfg (recvAll exCfg ex0 [([0x0a], seg0), ([0x0a], [0xff]), ([0x0b], [0x01, 0x80])]).1).1.sap.servers = [] := by
+  decide +kernel
+
+/-- fates of malformed datagrams -/
+example : fate [0xff] = .badNpci ∧ fate [0x01, 0x00, 0x00, 0x05] = .badApci ∧
+    fate [0x01, 0x20, 0x00, 0x07, 0x00, 0xff, 0x00] = .notForUs ∧ fate [0x01, 0x80, 0x7f] = .unknownMsg ∧
+    fate [0x01, 0x80, 0x02, 0x00] = .badMsg ∧ fate rp = .delivered := by decide
 
 end BacVerif.C10
